@@ -378,6 +378,11 @@ def _new_value(key, v, rng, data_len):
         return rng.choice([0, 0, 1, v + 1, max(0, v - 1), v + 2, 2 * v, 255, rng.randrange(64), rng.randrange(256)])
     if key in _COEFF:
         return rng.choice([0, 1, -1, -v, v + 1, v - 1, 2 * v + 1, 255, -256, 1 << 20, -(1 << 31), rng.randrange(-40, 41)])
+    if key == "level":
+        # the real levels constrain profile, version and everything after them: each is worth reaching
+        return rng.choice([1, 2, 3, 4, 5, 6, 7, 64, 64, 65, 65, 66, 66, 8, 63, 67, rng.randrange(0, 80)])
+    if key in ("profile", "major_version") and rng.random() < 0.7:
+        return rng.choice([0, 1, 2, 3, 3, 4])
     # generic unsigned exp-Golomb field
     if rng.random() < 0.012:
         # more than 4300 decimal digits (CPython's int -> str conversion limit)
